@@ -217,3 +217,12 @@ Proof.
 Qed.
 
 End Bloom.
+
+(** The hypotheses of the Bloom theorems are satisfiable (and the conclusion
+    is not vacuous): a concrete hash, 8 bits, 3 hashes. *)
+Example bloom_hypotheses_satisfiable :
+  let hsh := fun x i : Z => (x * 5 + 1, i + 2) in
+  0 < 8 /\ In (1, 1) [(1, 1); (2, 0)] /\
+  b_contains hsh 8 3 (b_sketch hsh 8 3 [(1, 1); (2, 0)] bloom_empty) 1 = true /\
+  b_contains hsh 8 3 (b_sketch hsh 8 3 [(1, 1); (2, 0)] bloom_empty) 2 = false.
+Proof. cbv zeta. repeat split; try lia; try (now left); vm_compute; reflexivity. Qed.
